@@ -226,12 +226,35 @@ def copyToStack (at_ : Int) (xs : List V) : M Unit := do
     if i < room then stackSet (at_ + i) x
     i := i + 1
 
-/-- vm.go xOpCallCompiled -/
-def callCompiled (fa : Addr) (numArgs flags : Int) : M (Except OpErr Unit) := do
-  let (code, free) ← fnCell fa
-  let sp ← getSp
-  let basePointer := sp - numArgs
-  let numLocals : Int := code.numLocals
+/-- `for i := 0; i < n; i++ { vm.stack[lo+i] = Undefined }` -/
+def fillUndefined (lo : Int) (n : Nat) : M Unit := do
+  for k in [0:n] do
+    stackSet (lo + k) .undefined
+
+/-- `copy(vm.stack[dst:…], src)` slot by slot -/
+def copySlots (dst : Int) (src : List V) : M Unit := do
+  let mut i : Int := 0
+  for x in src do
+    stackSet (dst + i) x
+    i := i + 1
+
+/-- `frame := &vm.frames[fi]; frame.fn = cfunc; …; vm.curFrame = frame` -/
+def enterFrame (fi : Nat) (fa : Addr) (free : Option (List Addr)) (basePointer : Int) : M Unit :=
+  modS fun s => { s with
+    frames := s.frames.modify fi fun f =>
+      { f with fn := some fa, free := free, handlers := none, bp := basePointer, discard := false },
+    curFrame := fi }
+
+/-- `for i := 0; i < numArgs; i++ { vm.sp--; vm.stack[vm.sp] = nil }` -/
+def popArgs (n : Nat) : M Unit := do
+  for _ in [0:n] do
+    let sp ← getSp
+    setSp (sp - 1)
+    stackSet (sp - 1) .nil
+
+/-- the argument-binding part of xOpCallCompiled (fixed / variadic / spread): an error return
+    leaves the VM before any frame is touched -/
+def bindArgs (code : Code) (basePointer numArgs flags : Int) : M (Except OpErr Unit) := do
   let numParams : Int := code.numParams
   if flags == 0 then
     if !code.variadic then
@@ -276,9 +299,20 @@ def callCompiled (fa : Addr) (numArgs flags : Int) : M (Except OpErr Unit) := do
       if arrSize + numArgs - 1 != numParams then
         return .error (.named "WrongNumberOfArgumentsError" (wantEq numParams (arrSize + numArgs - 1)))
       copyToStack (basePointer + numArgs - 1) lastElems
+  return .ok ()
+
+/-- vm.go xOpCallCompiled -/
+def callCompiled (fa : Addr) (numArgs flags : Int) : M (Except OpErr Unit) := do
+  let (code, free) ← fnCell fa
+  let sp ← getSp
+  let basePointer := sp - numArgs
+  let numLocals : Int := code.numLocals
+  let numParams : Int := code.numParams
+  match (← bindArgs code basePointer numArgs flags) with
+  | .error e => return .error e
+  | .ok () => pure ()
   -- for i := numParams; i < numLocals; i++ { vm.stack[basePointer+i] = Undefined }
-  for k in [0:(numLocals - numParams).toNat] do
-    stackSet (basePointer + numParams + k) .undefined
+  fillUndefined (basePointer + numParams) (numLocals - numParams).toNat
   -- tail call?
   let cf ← curFrame
   let ip ← getIp
@@ -294,10 +328,7 @@ def callCompiled (fa : Addr) (numArgs flags : Int) : M (Except OpErr Unit) := do
       if basePointer < 0 || basePointer > (stackSize : Int) then
         panic "runtime error: slice bounds out of range"
       let src ← stackSlice basePointer (min (stackSize : Int) (basePointer + numLocals))
-      let mut i : Int := 0
-      for x in src do
-        stackSet (curBp + i) x
-        i := i + 1
+      copySlots curBp src
       let newSp := sp - numArgs - 1
       clearDown sp newSp
       setSp newSp
@@ -313,11 +344,8 @@ def callCompiled (fa : Addr) (numArgs flags : Int) : M (Except OpErr Unit) := do
   if fi < 0 || fi ≥ (frameSize : Int) then
     panic s!"runtime error: index out of range [{fi}] with length {frameSize}"
   modS fun s => { s with frameIndex := fi + 1 }
-  modS fun s => { s with frames := (s.frames.modify s.curFrame fun f => { f with ip := ip + 2 }) }
-  modS fun s => { s with
-    frames := s.frames.modify fi.toNat fun f =>
-      { f with fn := some fa, free := free, handlers := none, bp := basePointer, discard := false },
-    curFrame := fi.toNat }
+  setCurFrame fun f => { f with ip := ip + 2 }
+  enterFrame fi.toNat fa free basePointer
   setSp (basePointer + numLocals)
   setIp (-1)
   return .ok ()
@@ -382,10 +410,7 @@ def callObject (callee : V) (numArgs flags : Int) : M (Except OpErr Unit) := do
       | v => return .error (.named "TypeError" s!"invalid type for argument 'last': expected array, found {typeName v}")
     let r ← callBuiltin i args
     -- for i := 0; i < numArgs; i++ { vm.sp--; vm.stack[vm.sp] = nil }
-    for _ in [0:numArgs.toNat] do
-      let sp ← getSp
-      setSp (sp - 1)
-      stackSet (sp - 1) .nil
+    popArgs numArgs.toNat
     match r with
     | .error e => return .error e
     | .ok v =>
